@@ -17,36 +17,57 @@ func init() {
 }
 
 // completionGuard matches  f.Peer.FragDoneNumber < len(f.Peer.Body)  for parameter f.
-func (c *Ctx) isCompletionCond(v ssa.Value, f ssa.Value) bool {
+// completionCond recognises the test that separates "fragments still outstanding" from "all answered":
+// FragDoneNumber < len(Body) (waiting on the true edge) or any equivalent spelling (>=, operands swapped; the
+// request reached through f.Peer directly or through a local `msg := f.Peer`). waitOnTrue tells which edge waits.
+func (c *Ctx) completionCond(v ssa.Value, f ssa.Value) (waitOnTrue bool, ok bool) {
 	p := c.P
-	bo, ok := v.(*ssa.BinOp)
-	if !ok || bo.Op != token.LSS {
-		return false
+	bo, isB := v.(*ssa.BinOp)
+	if !isB {
+		return false, false
 	}
 	fdn := p.Field(pkgCore, "Msg", "FragDoneNumber")
 	body := p.Field(pkgCore, "Msg", "Body")
 	peer := p.Field(pkgCore, "Frag", "Peer")
-	m1, ok := fieldLoad(bo.X, fdn)
-	if !ok {
-		return false
+	ofPeer := func(m ssa.Value) bool {
+		pf, ok := fieldLoad(m, peer)
+		return ok && strip(pf) == f
 	}
-	pf, ok := fieldLoad(m1, peer)
-	if !ok || strip(pf) != f {
-		return false
+	isCount := func(x ssa.Value) bool {
+		m, ok := fieldLoad(x, fdn)
+		return ok && ofPeer(m)
 	}
-	call, ok := bo.Y.(*ssa.Call)
-	if !ok {
-		return false
+	isLen := func(x ssa.Value) bool {
+		call, ok := strip(x).(*ssa.Call)
+		if !ok {
+			return false
+		}
+		if b, ok := call.Call.Value.(*ssa.Builtin); !ok || b.Name() != "len" {
+			return false
+		}
+		m, ok := fieldLoad(call.Call.Args[0], body)
+		return ok && ofPeer(m)
 	}
-	if b, ok := call.Call.Value.(*ssa.Builtin); !ok || b.Name() != "len" {
-		return false
+	op := bo.Op
+	switch {
+	case isCount(bo.X) && isLen(bo.Y):
+	case isLen(bo.X) && isCount(bo.Y):
+		op = flipCmp(op)
+	default:
+		return false, false
 	}
-	m2, ok := fieldLoad(call.Call.Args[0], body)
-	if !ok {
-		return false
+	switch op {
+	case token.LSS:
+		return true, true // count < len: waiting
+	case token.GEQ:
+		return false, true // count >= len: complete on the true edge
 	}
-	pf2, ok := fieldLoad(m2, peer)
-	return ok && strip(pf2) == f
+	return false, false
+}
+
+func (c *Ctx) isCompletionCond(v ssa.Value, f ssa.Value) bool {
+	_, ok := c.completionCond(v, f)
+	return ok
 }
 
 func ruleC07_1(c *Ctx) {
@@ -149,8 +170,12 @@ func ruleC07_2(c *Ctx) {
 			c.bad(tag+": completion test", p.pos(fn.Pos()), "no test `f.Peer.FragDoneNumber < len(f.Peer.Body)` found: the request is completed when the first fragment answers (short or partial reply) or never")
 			continue
 		}
-		// true edge returns Continue
+		// the waiting edge returns Continue
+		waitOnTrue, _ := c.completionCond(guardIf.Cond, f)
 		tb := guardIf.Block().Succs[0]
+		if !waitOnTrue {
+			tb = guardIf.Block().Succs[1]
+		}
 		okCont := false
 		if r, ok := tb.Instrs[len(tb.Instrs)-1].(*ssa.Return); ok {
 			if ld, ok := results(r)[0].(*ssa.UnOp); ok && ld.X == ssa.Value(cont) {
@@ -158,7 +183,7 @@ func ruleC07_2(c *Ctx) {
 			}
 		}
 		c.check(okCont, tag+": waits while fragments are outstanding", c.at(guardIf), "returns codec.Continue on FragDoneNumber < len(Body)", "the edge on which fragments are still outstanding does not return codec.Continue: eventloop.sread would flush an incomplete request")
-		isGuard := func(g Guard) bool { return g.If == guardIf && !g.Truth }
+		isGuard := func(g Guard) bool { return g.If == guardIf && g.Truth == !waitOnTrue }
 		n := 0
 		allInstrs(fn, func(in ssa.Instruction) {
 			st, ok := in.(*ssa.Store)
@@ -213,7 +238,8 @@ func ruleC07_3(c *Ctx) {
 			if !ok {
 				return
 			}
-			if guardHas(guardsOf(st), func(g Guard) bool { return g.If == guardIf && !g.Truth }) {
+			waitOnTrue, _ := c.completionCond(guardIf.Cond, f)
+			if guardHas(guardsOf(st), func(g Guard) bool { return g.If == guardIf && g.Truth == !waitOnTrue }) {
 				return // after completion
 			}
 			fv := fieldVar(fa.X.Type(), fa.Field)
